@@ -74,7 +74,7 @@ class Kind:
     def fresh_ephem(self, k):
         j = self.job
         base = Orbit(KEP[k], EPOCH, "keplerian", "EME2000", "Kepler")
-        dates = [EPOCH + self.tick * x for x in range(j["ELo"], j["EHi"] + 1, j["EN"])]
+        dates = [EPOCH + self.tick * x for x in sorted(set(range(j["ELo"], j["EHi"] + 1, j["EN"])) | {x for x in j.get("EExtra", ()) if j["ELo"] < x < j["EHi"]})]
         return Ephem([base.propagate(d) for d in dates])
 
 
@@ -92,7 +92,7 @@ def cart(sv):
     return np.asarray(sv.copy(form="cartesian", frame="EME2000" if sv.frame.name != "TEME" else "TEME"), dtype=float)
 
 
-def run_call(kind, objs, call, listeners):
+def run_call(kind, objs, call, listeners, defaults=False):
     """Execute one call on the shared objects; returns list of (tick offset, state, event or None) or raises."""
     tick = kind.tick
     obj = objs[call["o"] - 1]
@@ -116,6 +116,18 @@ def run_call(kind, objs, call, listeners):
         kw["stop"] = (ep + tick * call["b"]) if (call["b"] - call["a"]) % 2 else tick * (call["b"] - call["a"])
         if call["s"] != 0:
             kw["step"] = tick * call["s"]
+        if defaults:
+            # arguments that equal their documented default are left out: start (the orbit's date / the table's first date),
+            # stop (the table's last date)
+            if kind.name == "ephem":
+                if call["a"] == kind.job["ELo"]:
+                    del kw["start"]
+                    kw["stop"] = ep + tick * call["b"]
+                if call["b"] == kind.job["EHi"]:
+                    del kw["stop"]
+            elif call["a"] == 0:
+                del kw["start"]
+                kw["stop"] = ep + tick * call["b"] if call["b"] % 2 else tick * call["b"]
     if listeners is not None:
         kw["listeners"] = listeners
     for r in obj.iter(**kw):
@@ -190,7 +202,7 @@ def main(inp, outp):
                     run_call(kind, objs, c, listeners)
                 except Exception:
                     pass  # an earlier call that fails is judged in its own history
-            got, ep = run_call(kind, objs, last, listeners)
+            got, ep = run_call(kind, objs, last, listeners, defaults=h.get("defaults", False))
         except Exception as e:
             err = f"{type(e).__name__}: {e}"
         res["evaluations"] += 1
